@@ -174,6 +174,26 @@ class ForeignXmlGen:
             b.set("{%s}id" % PROV, "%s:bundle%d" % (r.choice(prefixes) if r.random() < 0.5 else "ex", i))
             for _ in range(r.randint(1, 3)):
                 self.record(b, r.choice(list(KIND_FORMALS)), bns, bp, bdefault)
+        if r.random() < 0.12:
+            # two more bundles: the first binds a document prefix (or the default namespace) to something of its own; the second
+            # is *named* under the document's binding of that prefix and uses it nowhere else
+            shadow = r.choice(["tr", "ex", None])
+            m1 = {shadow: "http://shadowing-bundle.example/ns#"} if shadow is not None or not default else {None: "http://shadowing-bundle.example/ns#"}
+            if shadow is None and default:
+                m1 = {None: "http://shadowing-bundle.example/ns#"}
+            elif shadow is None:
+                m1 = {"tr": "http://shadowing-bundle.example/ns#"}
+                shadow = "tr"
+            b1 = etree.SubElement(root, q("prov:bundleContent", nsmap), nsmap=m1)
+            other = "ex" if shadow != "ex" else "tr"
+            b1.set("{%s}id" % PROV, "%s:shadowing" % other)
+            ns1 = dict(nsmap)
+            if shadow is not None:
+                ns1[shadow] = m1[shadow]
+            self.record(b1, "entity", ns1, [p_ for p_ in prefixes if p_ != "ty"], default or (None in m1))
+            b2 = etree.SubElement(root, q("prov:bundleContent", nsmap))
+            b2.set("{%s}id" % PROV, ("%s:after-shadow" % shadow) if shadow is not None else "after-shadow")
+            self.record(b2, "entity", nsmap, [other], False)
         text = etree.tostring(root, xml_declaration=True, encoding="UTF-8", pretty_print=r.random() < 0.5).decode("utf-8")
         if r.random() < 0.08 and "ENTITYMARK" not in text:
             # an internal DTD subset with a general entity, used inside a value: well-formed XML that means the replacement text
